@@ -119,17 +119,32 @@ def hypergeom_conf_interval(n, x, N, cl=0.975, alternative="two-sided", G=None,
     if alternative == 'two-sided':
         cl = 1 - (1 - cl) / 2
 
+    # The hypergeometric cdf is only defined for integer G (it is NaN in
+    # between), so the limits are found by bisection over the integers; the
+    # result does not depend on the starting point G.
     if alternative != "upper" and x > 0:
+        # smallest G with P_G(X >= x) >= 1-cl: f(0) < 0 <= f(N), f nondecreasing
         f = lambda q: cl - hypergeom.cdf(x - 1, N, q, n)
-        while f(G) < 0:
-            G = (G+N)/2
-        ci_low = math.ceil(brentq(f, 0.0, G, *kwargs))
+        lo, hi = 0, N
+        while hi - lo > 1:
+            mid = (lo + hi) // 2
+            if f(mid) < 0:
+                lo = mid
+            else:
+                hi = mid
+        ci_low = hi
 
     if alternative != "lower" and x < n:
+        # largest G with P_G(X <= x) >= 1-cl: f(0) >= 0 > f(N), f nonincreasing
         f = lambda q: hypergeom.cdf(x, N, q, n) - (1 - cl)
-        while f(G) < 0:
-            G = G/2
-        ci_upp = math.floor(brentq(f, G, N, *kwargs))
+        lo, hi = 0, N
+        while hi - lo > 1:
+            mid = (lo + hi) // 2
+            if f(mid) < 0:
+                hi = mid
+            else:
+                lo = mid
+        ci_upp = lo
 
     return ci_low, ci_upp
 
